@@ -160,11 +160,20 @@ Definition xloop_items (ex : st -> list stmt -> outE (signal * st)) (tgt : targe
         end))
     end.
 
-Definition xwith_binds (ev : st -> expr -> outE (value * st)) : st -> list (name * expr) -> outE st :=
-  fix go (s : st) (l : list (name * expr)) : outE st :=
+Definition xmap_eval_pairs (ev : st -> expr -> outE (value * st)) : st -> list (expr * expr) -> outE (list (value * value) * st) :=
+  fix go (s : st) (l : list (expr * expr)) : outE (list (value * value) * st) :=
+    match l with
+    | [] => OkE ([], s)
+    | (ke, ve) :: r =>
+        bindE (ev s ke) (fun '(k, s1) => bindE (ev s1 ve) (fun '(v, s2) =>
+        bindE (go s2 r) (fun '(kvs, s3) => OkE ((k, v) :: kvs, s3))))
+    end.
+
+Definition xwith_binds (ev : st -> expr -> outE (value * st)) : st -> list (target * expr) -> outE st :=
+  fix go (s : st) (l : list (target * expr)) : outE st :=
     match l with
     | [] => OkE s
-    | (x, e) :: r => bindE (ev s e) (fun '(v, s1) => go (store s1 x v) r)
+    | (t, e) :: r => bindE (ev s e) (fun '(v, s1) => bindE (lift s1 (bind_target t s1 v)) (fun s2 => go s2 r))
     end.
 
 (* ---- the interpreter ---- *)
@@ -184,6 +193,7 @@ Fixpoint xeval (fuel : nat) (esc : bool) (s : st) (e : expr) {struct fuel} : out
     | EConst LNone => OkE (VNone, s)
     | EVar x => let '(v, s1) := lookup c s x in OkE (match v with Some v => v | None => VUndef end, s1)
     | EList items => bindE (eval_list s items) (fun '(vs, s1) => OkE (VList vs, s1))
+    | EMap pairs => bindE (xmap_eval_pairs (xeval fuel esc) s pairs) (fun '(kvs, s1) => OkE (VMap (map_of_pairs kvs), s1))
     | ENeg a => bindE (xeval fuel esc s a) (fun '(v, s1) =>
                   match v with VInt z => OkE (VInt (- z), s1) | _ => ErrE E_InvalidOperation (s_asks s1) end)
     | ENot a => bindE (xeval fuel esc s a) (fun '(v, s1) => bindE (lift s1 (u_is_true m v)) (fun b => OkE (VBool (negb b), s1)))
@@ -205,13 +215,13 @@ Fixpoint xeval (fuel : nat) (esc : bool) (s : st) (e : expr) {struct fuel} : out
                     else match f with Some f => xeval fuel esc s1 f | None => OkE (VSilent, s1) end))
     | EItem a i =>
         bindE (xeval fuel esc s a) (fun '(x, s1) => bindE (xeval fuel esc s1 i) (fun '(k, s2) =>
-          match (match x, k with VList l, VInt z => idx_list l z | _, _ => None end) with
+          match get_item_opt x k with
           | Some v => OkE (v, s2)
           | None => bindE (lift s2 (u_handle_undefined m (is_undef x))) (fun v => OkE (v, s2))
           end))
     | EAttr a attr =>
         bindE (xeval fuel esc s a) (fun '(x, s1) =>
-          match (match x with VLoop i n => loop_attr i n attr | _ => None end) with
+          match get_attr_opt x attr with
           | Some v => OkE (v, s1)
           | None => bindE (lift s1 (u_handle_undefined m (is_undef x))) (fun v => OkE (v, s1))
           end)
@@ -277,6 +287,7 @@ with xexec (fuel : nat) (esc : bool) (s : st) (t : stmt) {struct fuel} : outE (s
         bindE (lift s1 (match iv with
               | VList l => Ok l
               | VStr _ t => Ok (map (fun ch => VStr false [ch]) t)     (* a string iterates over its characters *)
+              | VMap kvs => Ok (map fst kvs)                           (* a map iterates over its keys, in map order *)
               | VUndef => if u_strictish m then Err E_UndefinedError else Ok []
               | VSilent => Ok []
               | _ => Err E_InvalidOperation end)) (fun items =>
@@ -291,7 +302,8 @@ with xexec (fuel : nat) (esc : bool) (s : st) (t : stmt) {struct fuel} : outE (s
         | [], Some eb => xexec_list fuel esc s6 eb
         | _, _ => OkE (SigNormal, s6)
         end))))
-    | SSet x e => bindE (xeval fuel esc s e) (fun '(v, s1) => OkE (SigNormal, store s1 x v))
+    | SSet tgt e =>
+        bindE (xeval fuel esc s e) (fun '(v, s1) => bindE (lift s1 (bind_target tgt s1 v)) (fun s2 => OkE (SigNormal, s2)))
     | SSetBlock x body flt =>
         bindE (capture esc s body) (fun '(sg, txt, s1) =>
         match sg with
